@@ -1,0 +1,7 @@
+//go:build !verif
+
+package cert
+
+import "crypto/tls"
+
+func verifOnSetCerts(*Store, []tls.Certificate) {}
